@@ -50,6 +50,12 @@ open Bpmn.Props.C12 Bpmn.Props.EngineCurrent
 #print axioms Bpmn.Props.C12Turns.return_frees_node
 #print axioms Bpmn.Props.C12Turns.nextTurn_mem
 #print axioms Bpmn.Props.C12Turns.nextTurn_node
+#print axioms Bpmn.Props.C12Turns.nextTurn_perm
+#print axioms Bpmn.Props.C12Turns.nextTurn_parked_nodup
+#print axioms Bpmn.Props.C12Turns.nextTurn_one
+#print axioms Bpmn.Props.C12Turns.nextTurn_parked_length
+#print axioms Bpmn.Props.C12Turns.nextTurn_others
+#print axioms Bpmn.Props.C12Turns.nextTurn_first
 #print axioms Bpmn.Props.C12.current_activations_take_turns
 #print axioms Bpmn.Props.C12Turns.answer_payload_irrelevant
 #print axioms Bpmn.Props.C12Turns.turnsRun_any_payload
